@@ -9,10 +9,11 @@ import Driver.C18
 import Driver.C17
 import Driver.C11
 import Driver.C20
+import Driver.C12
 open MongoModel.Wire
 
 def handlers : List (List String → Option (List String)) :=
-  [Driver.handleC01, Driver.handleHist, Driver.handleC18, Driver.handleC17, Driver.handleC11, Driver.handleC20]
+  [Driver.handleC01, Driver.handleHist, Driver.handleC18, Driver.handleC17, Driver.handleC11, Driver.handleC20, Driver.handleC12]
 
 def handle (ts : List String) : List String :=
   match handlers.findSome? (· ts) with
